@@ -18,7 +18,7 @@ CMDS = ['list', 'restore-list', 'restore-each', 'rm', 'empty-days', 'empty']
 def config(tier):
     return {
         'level': 'exploration',
-        'cases': 500 if tier == 'quick' else 40000,
+        'cases': 1600 if tier == 'quick' else 40000,
         'budget_s': 55 if tier == 'quick' else 560,
         'floors': {'cases': 150, 'differentials': 150, 'g_entries_compared': 400,
                    'malformed_neighbours': 300},
